@@ -5,6 +5,7 @@ import (
 	"strings"
 	"sync"
 	"sync/atomic"
+	"time"
 
 	"verif/mc"
 )
@@ -51,6 +52,8 @@ type witness struct {
 // deterministic.
 func search(r *mc.Run, build, sub string, mk func() system, unmerged, maxDepth, workers int) searchResult {
 	res := searchResult{complete: true}
+	start := time.Now()
+	var perTransition float64
 	seen := map[string]struct{}{}
 	s0 := mk()
 	s0.reset()
@@ -78,12 +81,16 @@ func search(r *mc.Run, build, sub string, mk func() system, unmerged, maxDepth, 
 		viols []viol
 	}
 	for depth := 0; depth < maxDepth && len(frontier) > 0; depth++ {
-		if r.Expired() {
+		n := len(frontier) * len(evs)
+		// budget: a level is only started when, at the measured cost per transition, it fits
+		// into the soft budget; the search then stops at a whole-level boundary
+		predicted := time.Duration(float64(n) * perTransition)
+		if r.Expired() || (depth > 0 && time.Since(start)+predicted > softBudget(r)) {
 			res.complete = false
-			r.NotExhaustive(sub + ": wall-clock budget reached before depth " + itoa(depth+1))
+			r.NotExhaustive(sub + ": time budget: stopped after complete depth " + itoa(depth) + " (next level has " + itoa(n) + " transitions)")
 			break
 		}
-		n := len(frontier) * len(evs)
+		levelStart := time.Now()
 		results := make([]result, n)
 		var wg sync.WaitGroup
 		var nextIdx int64 = -1
@@ -108,6 +115,7 @@ func search(r *mc.Run, build, sub string, mk func() system, unmerged, maxDepth, 
 			}(sys[wk])
 		}
 		wg.Wait()
+		perTransition = float64(time.Since(levelStart)) / float64(n)
 		var next [][]string
 		for i := range results {
 			path, ev := frontier[i/len(evs)], evs[i%len(evs)]
@@ -138,6 +146,14 @@ func search(r *mc.Run, build, sub string, mk func() system, unmerged, maxDepth, 
 		res.depth = depth + 1
 	}
 	return res
+}
+
+// softBudget bounds one sub-search (they all run concurrently).
+func softBudget(r *mc.Run) time.Duration {
+	if r.Quick() {
+		return 3 * time.Minute
+	}
+	return 11 * time.Minute
 }
 
 var (
